@@ -55,6 +55,12 @@ CHECKS.update({
    text="Every string operation (append of characters, blocks, C strings, strings, formatted text, code points; pop; trim with whitespace or symbolic sets; length change; hand-over; comparisons) from 9 constructed states (empty, capacity 8/16, terminated and raw, lengths up to the capacity) with symbolic content and arguments, plus pairs (thorough: triples) of operations across the reallocation boundary.",
    note=E2NOTE + " vsnprintf stub per C99 7.19.6.12; host C-locale isspace table."),
 })
+CHECKS.update({
+ "C07": dict(engine="llsym", cat="model_checking", design="4/C07",
+   technique="symbolic execution of vec/buf/que/str IR (llsym + z3) with a symbolic allocator: one fail/succeed Boolean per allocation request, forked by the executor; abstract-model and block-ledger oracle",
+   text="For vector, buffer, queue and string states (constructed or API-built), one allocating operation under every subset of failing allocation requests, then the same operation with a healthy allocator, then destruction: failure must be reported, the container must equal its previous abstract state and satisfy its invariants, the retry must succeed, and every block handed out must be released exactly once (double free / invalid free are executor findings).",
+   note=E2NOTE + " Native replay installs an allocator with the model's failure mask into a_alloc."),
+})
 NOT_YET = {}
 
 def main():
